@@ -76,7 +76,8 @@ pub fn tokens() -> Vec<Token<'static>> {
     for s in 0..=255u8 {
         v.push(Token::Simple(s));
     }
-    for h in [0u16, 0x3c00, 0x7bff, 0x7c00, 0xfc00, 0x0001, 0x8000] {
+    // incl. quiet NaNs with payloads (signalling half NaNs are excluded as the property does)
+    for h in [0u16, 0x3c00, 0x7bff, 0x7c00, 0xfc00, 0x0001, 0x8000, 0x03ff, 0x0400, 0x7e00, 0xfe00, 0x7e01, 0x7fff] {
         v.push(Token::F16(f32::from_bits(f16_to_f32(h))));
     }
     for b in [0u32, 0x3fc0_0000, 0x7fc0_0000] {
